@@ -251,7 +251,7 @@ def parse(line):
     if not m:
         return None
     r = m.group(1)
-    return {"R": r, "verdict": all(ch == "1" for ch in r), "L": int(m.group(2)), "F": m.group(3), "M": m.group(4),
+    return {"R": r, "verdict": all(ch in "1/" for ch in r), "L": int(m.group(2)), "F": m.group(3), "M": m.group(4),
             "V": m.group(5), "extra": m.group(6).strip()}
 
 
@@ -388,6 +388,93 @@ def gen_cases(tier, rng):
                 c.expect = {"verdict": True, "V": ",".join(
                     ("%dE" % (-1 if ch[1] == 2 else ch[1]) if ch[0] == 0 else "1T") for ch in chunks)}
                 cases.append(c)
+    # ---- (H) sessions: broken transfer -> zck_dl_reset -> retry
+    cases += gen_sessions(tier, rng)
+    return cases
+
+
+class SCase(Case):
+    """several transfers on one zckDL (reset + zck_get_missing_range before each); transfers = [(hdrs, body, parts)]"""
+
+    def __init__(self, name, chunks, transfers, doff=24, ht=1, kind="session", expect=None, group=None):
+        fill = [i for i, ch in enumerate(chunks) if ch[1] == 0 and ch[0] > 0]
+        super().__init__(name, chunks, fill, b"", "s", doff=doff, ht=ht, kind=kind, expect=expect, group=group)
+        self.transfers = transfers
+
+    def line(self):
+        def j(xs):
+            xs = list(xs)
+            return ",".join(xs) if xs else "-"
+        ts = "/".join("%s:%s:%s" % (j(vlib.hexs(h) for h in hd), vlib.hexs(b), p) for hd, b, p in self.transfers)
+        return "S %d %d %s %s -" % (self.ht, self.doff, j("%d.%d.%d" % c for c in self.chunks), ts)
+
+
+def response_spans(chunks, want, doff, mode, boundary=b"sEss10n"):
+    """complete well-formed response for the chunks 'want' plus, per chunk, the body offset just after its last
+    payload byte (a transfer cut at T has delivered the chunk iff that offset <= T)"""
+    starts = [sum(c[0] for c in chunks[:i]) for i in range(len(chunks))]
+    total = doff + sum(c[0] for c in chunks)
+    ends, body = {}, b""
+    if mode == "plain":
+        for t in want:
+            body += prng(chunks[t][2], chunks[t][0])
+            ends[t] = len(body)
+        return [b"Content-Range: bytes 0-1/2\r\n"], body, ends
+    for run in runs_of(want, chunks):
+        s0 = doff + starts[run[0]]
+        n = sum(chunks[t][0] for t in run)
+        body += b"\r\n--" + boundary + b"\r\nContent-Type: application/octet-stream\r\nContent-Range: bytes %d-%d/%d\r\n\r\n" % (s0, s0 + n - 1, total)
+        for t in run:
+            body += prng(chunks[t][2], chunks[t][0])
+            ends[t] = len(body)
+    body += b"\r\n--" + boundary + b"--\r\n"
+    return [b"HTTP/1.1 206 Partial Content\r\n", ct_header(boundary), b"\r\n"], body, ends
+
+
+def gen_sessions(tier, rng):
+    """broken transfer(s) -> zck_dl_reset -> retry: the first response is cut at EVERY byte position (inside chunks,
+    part headers, delimiters, exactly at chunk ends), then the complete response for what is still missing"""
+    cases = []
+    thorough = tier == "thorough"
+    tables = [("mp", [(7, 0, 801), (9, 1, 802), (6, 0, 803), (11, 0, 804)]),
+              ("plain", [(8, 1, 811), (7, 0, 812), (10, 0, 813), (5, 0, 814)]),
+              ("mp", [(6, 0, 821), (5, 0, 822), (4, 1, 823), (9, 0, 824), (3, 0, 825)])]
+    if thorough:
+        tables += [(m, [(rng.randrange(1, 30), 0 if rng.random() < 0.7 else rng.choice([1, 2]), rng.randrange(1, 1 << 30))
+                        for _ in range(rng.randrange(3, 7))]) for m in ("mp", "plain", "mp", "mp", "plain", "mp")]
+    def missing(chunks, done):
+        return [i for i, ch in enumerate(chunks) if ch[1] == 0 and ch[0] > 0 and i not in done]
+    def mode_for(mode, chunks, want):
+        return "plain" if mode == "plain" and len(runs_of(want, chunks)) == 1 else "mp"
+    for ti, (mode, chunks) in enumerate(tables):
+        want0 = missing(chunks, set())
+        if not want0:
+            continue
+        h1, b1, e1 = response_spans(chunks, want0, 24, mode_for(mode, chunks, want0))
+        exp = None
+        for T in range(0, len(b1)):
+            done = {t for t in want0 if e1[t] <= T}
+            want1 = missing(chunks, done)
+            h2, b2, e2 = response_spans(chunks, want1, 24, mode_for(mode, chunks, want1))
+            p1 = ("w", "k1", "k3")[T % 3] if T else "w"
+            p2 = ("k1", "w", "k4")[(T // 3) % 3]
+            c = SCase("sess:%d:%s:cut=%d:%s:%s" % (ti, mode, T, p1, p2), chunks, [(h1, b1[:T], p1), (h2, b2, p2)])
+            c.expect = expect_for(c)
+            cases.append(c)
+            # two broken transfers in a row, then the complete one
+            if T % (4 if not thorough else 1) == 1 and len(b2) > 2:
+                for T2 in sorted({1, len(b2) // 2, len(b2) - 1, rng.randrange(1, len(b2))}):
+                    done2 = done | {t for t in want1 if e2[t] <= T2}
+                    want2 = missing(chunks, done2)
+                    h3, b3, _ = response_spans(chunks, want2, 24, mode_for(mode, chunks, want2))
+                    c = SCase("sess2:%d:%s:cut=%d.%d" % (ti, mode, T, T2), chunks,
+                              [(h1, b1[:T], "k2"), (h2, b2[:T2], p2), (h3, b3, "k1" if T2 % 2 else "w")])
+                    c.expect = expect_for(c)
+                    cases.append(c)
+        # a complete transfer followed by a needless retry (nothing missing: empty range, nothing must change)
+        c = SCase("sess:%d:%s:complete-then-empty" % (ti, mode), chunks, [(h1, b1, "k5"), ([], b"", "w")])
+        c.expect = expect_for(c)
+        cases.append(c)
     return cases
 
 
@@ -549,11 +636,24 @@ class RawCase(Case):
                          post=post, hdrs=[vlib.unhex(h) for h in sp(t[6])], opts=sp(t[9]), kind="replay")
 
 
+def raw_scase(line):
+    """a session case rebuilt from its line (replay)"""
+    t = line.split()
+    def sp(x, sep=","):
+        return [] if x == "-" else x.split(sep)
+    chunks = [tuple(int(v) for v in c.split(".")) for c in sp(t[3])]
+    trs = []
+    for tr in t[4].split("/"):
+        hd, body, parts = tr.split(":")
+        trs.append(([vlib.unhex(h) for h in sp(hd)], vlib.unhex(body), parts))
+    return SCase("replay", chunks, trs, doff=int(t[2]), ht=int(t[1]))
+
+
 def replay_cases(only_case):
     cs = only_case["case"]
     out = []
     for k, line in enumerate([cs["line"]] + list(cs.get("others", []))):
-        c = RawCase(line)
+        c = raw_scase(line) if line.startswith("S ") else RawCase(line)
         c.name = cs.get("name", "replay") if k == 0 else "replay-other-%d" % k
         c.kind = cs.get("kind") or "replay"
         c.expect = cs.get("expect") if k == 0 else None
